@@ -78,6 +78,11 @@ func specFor(sc scenario) *common.Spec {
 		spec.EPOCHS_PER_SLASHINGS_VECTOR = 8
 		spec.MIN_VALIDATOR_WITHDRAWABILITY_DELAY = 2
 	}
+	if sc.Family == "massslash" {
+		// a wide hysteresis band keeps the effective balance above the balance after the initial slashing penalty,
+		// so the correlation penalty (the whole effective balance) exceeds what the validator has left
+		spec.HYSTERESIS_QUOTIENT = 1
+	}
 	if sc.Family == "ejectdeneb" {
 		// fine-grained effective balances: one epoch of missed attestations lowers the effective balance below the
 		// (high) ejection balance, so a low-participation epoch ejects many validators at one epoch boundary
@@ -140,7 +145,7 @@ func drawScenario(rng *rand.Rand, family string, quick bool, forceLate ...bool) 
 		sc.ForkEpochs = [4]uint64{1, 2, 3, 3}
 	}
 	sc.StepEvery = rng.IntN(2) == 0
-	forceDeneb := false
+	forceDeneb, forceBellatrix := false, false
 	switch family {
 	case "steady":
 		sc.Epochs = 7 + rng.IntN(4)
@@ -193,6 +198,7 @@ func drawScenario(rng *rand.Rand, family string, quick bool, forceLate ...bool) 
 		sc.POps = 0
 		sc.PBlock = 1
 		sc.Epochs = 12
+		forceBellatrix = true // proportional slashing multiplier 3: a third of the stake slashed takes whole balances
 	case "ejectall":
 		sc.Epochs = 4
 		sc.POps = 1
@@ -247,6 +253,10 @@ func drawScenario(rng *rand.Rand, family string, quick bool, forceLate ...bool) 
 	if forceDeneb {
 		lateForks = false
 		sc.ForkEpochs = [4]uint64{1, 1, 1, 1}
+	}
+	if forceBellatrix {
+		lateForks = false
+		sc.ForkEpochs = [4]uint64{1, 2, uint64(6 + rng.IntN(3)), uint64(9 + rng.IntN(3))}
 	}
 	if lateForks && family != "capella" && !(family == "leak" && sc.Epochs > 40) {
 		period := uint64(8)
@@ -338,7 +348,9 @@ func runChain(b *fw.B, sc scenario, hooks chainHooks, report func(m *sim.Mismatc
 			plan.Exits = rng.IntN(3)
 			plan.BLSChanges = rng.IntN(3)
 		}
-		if sc.ForcedSlashings {
+		if sc.Family == "massslash" {
+			plan.AttesterSlashings, plan.ProposerSlashings = 2, 1+rng.IntN(2)
+		} else if sc.ForcedSlashings {
 			plan.AttesterSlashings, plan.ProposerSlashings = 1, rng.IntN(2)
 		}
 		if sc.Blobs > 0 {
